@@ -584,7 +584,6 @@ fn build_segment_from_runs(seg_id: SegmentId, runs: &Arc<Vec<Arc<L0Run>>>) -> Cs
 
     for run in runs.iter() {
         blocked_nodes.extend(run.iter_tombstoned_nodes());
-        blocked_edges.extend(run.iter_tombstoned_edges());
 
         for e in run.iter_edges() {
             if blocked_nodes.contains(&e.src) || blocked_nodes.contains(&e.dst) {
@@ -595,6 +594,10 @@ fn build_segment_from_runs(seg_id: SegmentId, runs: &Arc<Vec<Arc<L0Run>>>) -> Cs
             }
             edges.push(e);
         }
+
+        // As on the read path, a run's edge tombstones hide older runs only: an edge
+        // that is still present in the run was re-created after the deletion.
+        blocked_edges.extend(run.iter_tombstoned_edges());
     }
 
     edges.sort();
